@@ -347,6 +347,10 @@ fn worker(world: &'static dyn World, a: &Args) -> i32 {
     let idxs: Vec<u64> = if a.reverse { (a.from..a.to).rev().collect() } else { (a.from..a.to).collect() };
     let dir = format!("{}/replays-out", verif_root());
     let mut minimised: HashSet<(String, String)> = HashSet::new();
+    // listed known findings already have a committed minimised replay: do not spend the budget re-minimising them
+    for k in load_known(&a.prop) {
+        minimised.insert((k.class.clone(), k.sig.clone()));
+    }
     for idx in idxs {
         let seed = run_seed(a.seed, world.name(), &a.prop, &batch, idx);
         let (rep, rec) = run_one(world, &a.prop, &batch, Tape::generate(seed));
